@@ -75,7 +75,8 @@ def run(ctx):
                    'walker takes %s from the like-named option, default %r' % (nm, defaults[nm]),
                    'LatexWalker.__init__ does not take %s from the option of the same name with '
                    'default %r' % (nm, defaults[nm]), construct='LatexWalker.__init__: ' + nm)
-    ctor = [c for c in iter_own(wp) if isinstance(c, ast.Call) and call_name(c) == 'LineNumbersCalculator']
+    ctor = [c for _f in wm.values() for c in iter_own(_f) if isinstance(c, ast.Call)
+            and call_name(c) == 'LineNumbersCalculator']
     if not ctor:
         ctx.refuted('R20b', w, wp, 'LatexWalker.pos_to_lineno_colno does not build a '
                                    'LineNumbersCalculator', construct='calculator construction')
